@@ -618,7 +618,7 @@ def describe(c):
 
 
 def run(ctx):
-    n = 12000 if ctx.quick else 120000
+    n = 12000 if ctx.quick else 240000
     cases = gen_cases(ctx, n)
     mism, specv, stats, svb, mfields, model = evaluate(ctx, cases, bash_all=True)   # batched bash is cheap: every case
     k = min(40, len(mfields))
@@ -627,7 +627,7 @@ def run(ctx):
     bad = [j for j, v in zip(pick, ce) if v != model[j]]
     if bad:
         raise core.CheckBroken("extracted runner and vm_compute disagree on case %r" % (mfields[bad[0]],))
-    bm, bv, bstats, bsvb = evaluate_brace(ctx, 3000 if ctx.quick else 30000)
+    bm, bv, bstats, bsvb = evaluate_brace(ctx, 3000 if ctx.quick else 60000)
     mism += bm
     specv += bv
     stats["brace"] = bstats
